@@ -32,6 +32,8 @@ def cases(ctx):
     for b in BOUNDS:
         ns += [b + d for d in range(-3, 4)]
     ns += [-1, -2 ** 63, 2 ** 64 + 12345, 2 ** 70]
+    from harness import gen as G
+    ns += G.source_literals(limit=2 ** 64 + 2)
     ns += [rng.getrandbits(rng.choice([8, 16, 17, 24, 32, 33, 48, 63, 64])) for _ in range(ctx.n(3000, 200000))]
     for n in ns:
         ctx.count('cs_enc')
